@@ -12,8 +12,11 @@ use foca::{Header, Member, Message, State};
 use serde_json::json;
 use std::collections::BTreeMap;
 
-const DELIVERY_CAP: usize = 64;
-const TRIPLE_CAP: usize = 4;
+// caps, against the longest legitimate cascades observed over 2 x 10^7 cascades of the unchanged tree:
+// 40 deliveries, 5 deliveries of the same (src, dst, kind), causal chains (reply to a reply to ...) of 12 links
+const DELIVERY_CAP: usize = 96;
+const TRIPLE_CAP: usize = 8;
+const DEPTH_CAP: usize = 20;
 
 struct World {
     nodes: Vec<Node>,
@@ -30,8 +33,12 @@ fn build(r: &mut Rng64) -> (World, String) {
     let mut cfg = Cfg::simple();
     cfg.k = r.range(1, 3) as usize;
     cfg.notify_down = r.chance(2, 3);
-    cfg.tx = *r.pick(&[1u8, 3, 10]);
+    cfg.tx = *r.pick(&[1u8, 3, 10, 40]);
     cfg.mps = 1400;
+    // (timers are held, but an instance that goes idle makes a last announce-to-down round when that task is on)
+    if r.chance(1, 3) {
+        cfg.pad = Some((cfg.p, r.range(1, 3) as usize));
+    }
     let hcfg = if r.chance(1, 3) { HdlCfg::simple() } else { HdlCfg::disabled() };
     let renewable = r.chance(1, 2);
     let mut desc = format!("n={n} k={} notify_down={} renewable={renewable} custom={} ", cfg.k, cfg.notify_down, hcfg.enabled);
@@ -163,15 +170,17 @@ fn cascade_case(ctx: &Ctx, case: u64, acc: &mut Acc) -> Verdict {
     let (dst, d, what) = initial_datagram(&w, &mut r, kind);
     crate::run::trace(|| format!("world: {desc}"));
     crate::run::trace(|| format!("inject: {what}"));
-    let mut bag: Vec<(Id, Vec<u8>)> = vec![(dst, d)];
+    let mut bag: Vec<(Id, Vec<u8>, usize)> = vec![(dst, d, 0)];
     let mut deliveries = 0usize;
     let mut max_fanout = 0usize;
+    let mut max_depth = 0usize;
+    let mut max_triple = 0usize;
     let mut triples: BTreeMap<(Id, Id, &'static str), usize> = BTreeMap::new();
     // delivery order strategies: random, FIFO, LIFO, and two adversarial ones that look at the datagrams
     // (replies to the newest identities first / automatic replies last)
     let strategy = r.below(6);
     let codec = w.codec;
-    let rank = |d: &[u8]| -> (u8, u8) {
+    let rank = |d: &Vec<u8>| -> (u8, u8) {
         match wire::decode_header(codec, d) {
             Ok((h, _)) => (u8::from(h.message == Message::TurnUndead), 255 - h.src.gen),
             Err(_) => (0, 0),
@@ -203,7 +212,13 @@ fn cascade_case(ctx: &Ctx, case: u64, acc: &mut Acc) -> Verdict {
                 best
             }
         };
-        let (to, data) = bag.remove(idx);
+        let (to, data, depth) = bag.remove(idx);
+        max_depth = max_depth.max(depth);
+        ensure!(
+            depth <= DEPTH_CAP,
+            "C18/causal-chain-too-long",
+            "a chain of {depth} automatic reactions (each datagram caused by the delivery of the previous one) and still going (world: {desc}; injected {what})"
+        );
         let Some(j) = w.nodes.iter().position(|x| x.id().addr == to.addr) else { continue };
         if w.nodes[j].poisoned {
             acc.inconclusive += 1;
@@ -213,6 +228,7 @@ fn cascade_case(ctx: &Ctx, case: u64, acc: &mut Acc) -> Verdict {
         let (hdr, _) = wire::decode_header(w.codec, &data).map_err(|e| V::new("C18/harness", e))?;
         let t = triples.entry((hdr.src, hdr.dst, kind_name(&hdr.message))).or_default();
         *t += 1;
+        max_triple = max_triple.max(*t);
         ensure!(
             *t <= TRIPLE_CAP,
             "C18/reply-cycle",
@@ -250,12 +266,14 @@ fn cascade_case(ctx: &Ctx, case: u64, acc: &mut Acc) -> Verdict {
             kind_name(&hdr.message)
         );
         for (to, d) in rec.sends() {
-            bag.push((*to, d.clone()));
+            bag.push((*to, d.clone(), depth + 1));
         }
         // timers are collected but never fired
     }
     acc.max("deliveries_until_drained", deliveries as u64);
     acc.max("fan_out_per_delivery", max_fanout as u64);
+    acc.max("causal_depth", max_depth as u64);
+    acc.max("repeats_of_one_src_dst_kind", max_triple as u64);
     acc.tally("cascades_drained", 1);
     acc.tally(&format!("initial/{}", wire::KINDS[kind.min(10)]), 1);
     acc.tally(&format!("delivery_order_strategy/{strategy}"), 1);
@@ -356,7 +374,7 @@ pub fn check() -> Check {
     Check {
         id: "C18",
         level: "exploration",
-        rule: "2..=4 real instances put, by public operations only, into random reachable mutual-knowledge states (unknown/Alive/Suspect/Down/superseded generation; active/idle/left/told-down; renewable or not; notify_down_members on/off; with/without custom broadcasts); one well-formed datagram of each of the 11 kinds (case index mod 11) injected; network drained with all timers held under 5 delivery-order strategies (random, FIFO, LIFO, gossip-before-TurnUndead with newest identities first, TurnUndead-first with oldest identities first). Caps: 64 deliveries per cascade, 4 deliveries of the same (src,dst,kind), fan-out (self-directed updates+1)*k+2 per delivery. Non-trivial: >= 2 deliveries; distinct by (world, injected datagram). A quarter of the worlds live at generations 253..255 (the next renewal wraps and fails) and renewable worlds also use renew() policies that yield losing or identical identities. 'feedstorm': 7..12 instances with packets that hold one or two Feed members; an Announce is answered, then a datagram that makes the same instance gossip (suspicion/Down about itself, TurnUndead) is delivered: exactly one gossip round (<= k) plus at most one reply is admissible.",
+        rule: "2..=4 real instances put, by public operations only, into random reachable mutual-knowledge states (unknown/Alive/Suspect/Down/superseded generation; active/idle/left/told-down; renewable or not; notify_down_members on/off; with/without custom broadcasts); one well-formed datagram of each of the 11 kinds (case index mod 11) injected; network drained with all timers held under 5 delivery-order strategies (random, FIFO, LIFO, gossip-before-TurnUndead with newest identities first, TurnUndead-first with oldest identities first). Caps: 96 deliveries per cascade, 8 deliveries of the same (src,dst,kind), causal chains of 20 links, fan-out (self-directed updates+1)*k+2 per delivery (longest legitimate values seen over 2x10^7 cascades: 40, 5, 12). max_transmissions in {1,3,10,40}; a third of the worlds with announce-to-down enabled. Non-trivial: >= 2 deliveries; distinct by (world, injected datagram). A quarter of the worlds live at generations 253..255 (the next renewal wraps and fails) and renewable worlds also use renew() policies that yield losing or identical identities. 'feedstorm': 7..12 instances with packets that hold one or two Feed members; an Announce is answered, then a datagram that makes the same instance gossip (suspicion/Down about itself, TurnUndead) is delivered: exactly one gossip round (<= k) plus at most one reply is admissible.",
         assumptions: &["a finite run cannot show non-termination: a reply chain longer than the caps (an order of magnitude above the longest legitimate one observed) is what is reported"],
         required: &["cascades_drained", "initial/TurnUndead", "initial/Ping"],
         workloads: vec![
